@@ -107,10 +107,9 @@ func (p *Path) aeadSeal(m *aeadModel, dst, nonce, pt, ad *sliceV) value {
 	if !p.branch(p.tt.Eq(nonce.len, p.i64(12))) {
 		panic(targetPanic{iface{v: &runtimeErr{"crypto/cipher: incorrect nonce length given to GCM"}}})
 	}
-	if !ad.isNil() {
-		if n, ok := concInt(ad.len); !ok || n != 0 {
-			panic(p.unsupported("AEAD additional data"))
-		}
+	var adb []value
+	if !ad.isNil() && ad.abs == nil {
+		adb = p.elems(ad, "additional data")
 	}
 	if pt.abs != nil || dst.abs != nil {
 		// length-only: result = append(dst, <len(pt)+16 bytes>)
@@ -125,26 +124,27 @@ func (p *Path) aeadSeal(m *aeadModel, dst, nonce, pt, ad *sliceV) value {
 	nb := p.elems(nonce, "nonce")
 	pb := append([]value(nil), p.elems(pt, "plaintext")...)
 	var out []value
-	if allConc(m.key, nb, pb) {
-		ct := p.nativeAEAD(m).Seal(nil, toBytes(nb), toBytes(pb), nil)
+	if allConc(m.key, nb, pb, adb) {
+		ct := p.nativeAEAD(m).Seal(nil, toBytes(nb), toBytes(pb), toBytes(adb))
 		out = p.fromBytes(ct)
 	} else {
 		L := len(pb)
 		keyT := p.bytesTerm(m.key)
 		nT := p.bytesTerm(nb)
-		name := fmt.Sprintf("seal_%s_%d_%d", m.method, len(m.key)*8, L)
-		var ct *Term
-		if L == 0 {
-			ct = p.tt.Apply(name, 128, keyT, nT)
-		} else {
-			ct = p.tt.Apply(name, 8*(L+16), keyT, nT, p.bytesTerm(pb))
-		}
-		out = p.termBytes(ct, L+16)
-		var ptT *Term
+		name := fmt.Sprintf("seal_%s_%d_%d_ad%d", m.method, len(m.key)*8, L, len(adb))
+		args := []*Term{keyT, nT}
+		var ptT, adT *Term
 		if L > 0 {
 			ptT = p.bytesTerm(pb)
+			args = append(args, ptT)
 		}
-		p.aeadSeals = append(p.aeadSeals, sealRec{method: m.method, key: keyT, nonce: nT, n: L, ct: ct, pt: ptT})
+		if len(adb) > 0 {
+			adT = p.bytesTerm(adb)
+			args = append(args, adT)
+		}
+		ct := p.tt.Apply(name, 8*(L+16), args...)
+		out = p.termBytes(ct, L+16)
+		p.aeadSeals = append(p.aeadSeals, sealRec{method: m.method, key: keyT, nonce: nT, n: L, ct: ct, pt: ptT, adLen: len(adb), ad: adT})
 	}
 	tmp := p.bytesToSlice(out)
 	return p.appendOp(dst, tmp, nil)
@@ -158,10 +158,9 @@ func (p *Path) aeadOpen(m *aeadModel, dst, nonce, ct, ad *sliceV) value {
 	if !p.branch(p.tt.Eq(nonce.len, p.i64(12))) {
 		panic(targetPanic{iface{v: &runtimeErr{"crypto/cipher: incorrect nonce length given to GCM"}}})
 	}
-	if !ad.isNil() {
-		if n, ok := concInt(ad.len); !ok || n != 0 {
-			panic(p.unsupported("AEAD additional data"))
-		}
+	var adb []value
+	if !ad.isNil() && ad.abs == nil {
+		adb = p.elems(ad, "additional data")
 	}
 	nilSlice := &sliceV{off: p.i64(0), len: p.i64(0), cap: p.i64(0)}
 	if !p.branch(p.tt.Cmp(OpSle, p.i64(16), ct.len)) {
@@ -180,8 +179,8 @@ func (p *Path) aeadOpen(m *aeadModel, dst, nonce, ct, ad *sliceV) value {
 	nb := p.elems(nonce, "nonce")
 	cb := append([]value(nil), p.elems(ct, "ciphertext")...)
 	L := len(cb) - 16
-	if allConc(m.key, nb, cb) {
-		pt, err := p.nativeAEAD(m).Open(nil, toBytes(nb), toBytes(cb), nil)
+	if allConc(m.key, nb, cb, adb) {
+		pt, err := p.nativeAEAD(m).Open(nil, toBytes(nb), toBytes(cb), toBytes(adb))
 		if err != nil {
 			return tuple{nilSlice, authErr}
 		}
@@ -190,18 +189,27 @@ func (p *Path) aeadOpen(m *aeadModel, dst, nonce, ct, ad *sliceV) value {
 	keyT := p.bytesTerm(m.key)
 	nT := p.bytesTerm(nb)
 	cT := p.bytesTerm(cb)
-	okT := p.tt.Apply(fmt.Sprintf("openok_%s_%d_%d", m.method, len(m.key)*8, L), 0, keyT, nT, cT)
+	oargs := []*Term{keyT, nT, cT}
+	var adT *Term
+	if len(adb) > 0 {
+		adT = p.bytesTerm(adb)
+		oargs = append(oargs, adT)
+	}
+	okT := p.tt.Apply(fmt.Sprintf("openok_%s_%d_%d_ad%d", m.method, len(m.key)*8, L, len(adb)), 0, oargs...)
 	var ptT *Term
 	if L > 0 {
-		ptT = p.tt.Apply(fmt.Sprintf("openpt_%s_%d_%d", m.method, len(m.key)*8, L), 8*L, keyT, nT, cT)
+		ptT = p.tt.Apply(fmt.Sprintf("openpt_%s_%d_%d_ad%d", m.method, len(m.key)*8, L, len(adb)), 8*L, oargs...)
 	}
 	// axioms against the seals made so far on this path
 	anyMatch := p.tt.fls
 	for _, s := range p.aeadSeals {
-		if s.method != m.method || s.n != L || s.key.w != keyT.w {
+		if s.method != m.method || s.n != L || s.key.w != keyT.w || s.adLen != len(adb) {
 			continue
 		}
 		match := p.tt.BAnd(p.tt.BAnd(p.tt.Eq(s.key, keyT), p.tt.Eq(s.nonce, nT)), p.tt.Eq(s.ct, cT))
+		if adT != nil {
+			match = p.tt.BAnd(match, p.tt.Eq(s.ad, adT))
+		}
 		cons := okT
 		if L > 0 {
 			cons = p.tt.BAnd(okT, p.tt.Eq(ptT, s.pt))
@@ -416,6 +424,16 @@ func init() {
 		}
 		r := p.freshVar("randint", 64)
 		p.assertPC(p.tt.BAnd(p.tt.Cmp(OpSle, p.i64(0), r), p.tt.Cmp(OpSlt, r, n)))
+		if p.randSmall {
+			p.assertPC(p.tt.Cmp(OpSlt, r, p.i64(2)))
+		} else if p.randEdges {
+			// stated reduction of the quick tier: only the edge classes of each draw
+			e := p.tt.fls
+			for _, c := range []*Term{p.i64(0), p.i64(1), p.tt.Bin(OpAshr, n, p.i64(1)), p.tt.Bin(OpSub, n, p.i64(2)), p.tt.Bin(OpSub, n, p.i64(1))} {
+				e = p.tt.BOr(e, p.tt.Eq(r, c))
+			}
+			p.assertPC(e)
+		}
 		return r
 	}
 	I["math/rand/v2.NewChaCha8"] = func(p *Path, c *frame, fn *ssa.Function, a []value) value { return (*value)(nil) }
